@@ -7,6 +7,7 @@ package c01
 import (
 	"fmt"
 	"math/rand"
+	"strings"
 
 	"verif/core"
 )
@@ -23,6 +24,7 @@ func Run(ctx *core.Ctx) {
 	SpecialFamily(ctx)
 	FloatTextFamily(ctx)
 	RandomTraces(ctx, ctx.Pick(4000, 150000))
+	ctx.Extra["closed_expressions_also_evaluated_standalone"] = evalChecked
 }
 
 // Classify gives the structural feature used to match known findings.
@@ -79,6 +81,7 @@ func Judge(ctx *core.Ctx, cases []*core.ExprCase) {
 				"valid expression rejected by the compiler: "+cs.Src+" : "+cs.Obs.CompileErr, cs)
 			continue
 		}
+		checkEval(ctx, cs)
 		toValidate = append(toValidate, cs)
 	}
 	if len(toValidate) == 0 {
@@ -116,3 +119,26 @@ func isNontrivial(e core.E) bool {
 	}
 	return true
 }
+
+// checkEval: a closed expression evaluated standalone (soyhtml.EvalExpr, the
+// entry point used for globals files) must agree with the render of the same
+// text: an error exactly when the render fails, the same text otherwise.
+func checkEval(ctx *core.Ctx, cs *core.ExprCase) {
+	if !cs.Obs.EvalDone || cs.Obs.Hung || cs.Obs.Panicked || cs.Obs.CompileErr != "" {
+		return
+	}
+	switch {
+	case cs.Obs.EvalNil:
+		ctx.Violation(core.Sig{Family: cs.Family, Feature: "evalexpr-nil-value-nil-error"},
+			"soyhtml.EvalExpr("+cs.Src+") returned neither a value nor an error; the render says "+fmt.Sprintf("%+v", cs.Obs), cs)
+	case cs.Obs.EvalErr != cs.Obs.Err && !strings.Contains(cs.Obs.ErrText, "evaluates to undefined"):
+		ctx.Violation(core.Sig{Family: cs.Family, Feature: "evalexpr-disagrees-with-render,error"},
+			fmt.Sprintf("soyhtml.EvalExpr(%s): error=%v (%s) but the render of the same expression: error=%v (%s)", cs.Src, cs.Obs.EvalErr, cs.Obs.EvalOut, cs.Obs.Err, cs.Obs.ErrText), cs)
+	case !cs.Obs.EvalErr && !cs.Obs.Err && cs.Obs.EvalOut != cs.Obs.Out:
+		ctx.Violation(core.Sig{Family: cs.Family, Feature: "evalexpr-disagrees-with-render,value"},
+			fmt.Sprintf("soyhtml.EvalExpr(%s) = %q but the render of the same expression writes %q", cs.Src, cs.Obs.EvalOut, cs.Obs.Out), cs)
+	}
+	evalChecked++
+}
+
+var evalChecked int
